@@ -677,6 +677,39 @@ fn scn_flushes(o: &Opts, tr: &mut Tr, prop: &str) {
         }
     }
     bulk_cut_schedules(o, tr, prop, &mut r, 400, 4000);
+    // call sequences around a Full flush, on input that repeats itself across the flush point: a Full
+    // flush right after another flush with no input in between, a Full flush whose output does not fit
+    // and is collected by a later call, two Full flushes in a row, a Full flush before any input
+    {
+        let big = 1usize << 20;
+        let mut k = 0usize;
+        for lvl in [1u8, 2, 6, 9] {
+            for pre in [2usize, 1, 7, 0, 3] {
+                for shape in 0..4usize {
+                    k += 1;
+                    if !o.thorough && (k + o.seed as usize) % 2 == 0 { continue; }
+                    let seg = 400 + r.gen_range(0..400usize);
+                    let pat: Vec<u8> = (0..seg).map(|_| 40 + r.gen_range(0..48u8)).collect();
+                    let mut data = Vec::new();
+                    for _ in 0..5 { data.extend_from_slice(&pat); }
+                    let script: Vec<(usize, usize, usize)> = match shape {
+                        // some flush, then Full with no new input, then the repeat
+                        0 => vec![(seg, big, pre), (0, big, 3), (seg, big, 0), (seg, big, 2)],
+                        // Full into a buffer that is too small, collected later, then the repeat
+                        1 => vec![(seg, 20 + r.gen_range(0..60), 3), (0, big, [0usize, 3, 2][k % 3]), (seg, big, 0), (seg, big, 3), (0, 7, 3), (0, big, 0)],
+                        // input and Full in one call after an earlier flush, twice
+                        2 => vec![(seg, big, pre), (seg, big, 3), (0, big, 3), (seg, big, pre), (seg, big, 3)],
+                        // Full before any input, then flush kinds interleaved
+                        _ => vec![(0, big, 3), (seg, big, pre), (0, big, 3), (0, big, pre), (seg, big, 0)],
+                    };
+                    let cfg = Cfg { zlib: k % 2 == 0, level: lvl, strat: [0usize, 0, 1, 4][k % 4], wbits: 15, api: "params" };
+                    let sch = Sched { chunk_pat: "all".into(), outs: vec![big], flush_pct: 0, flush_set: vec![], callback: false, max_points: 5 };
+                    comp::SCRIPT.with(|s| *s.borrow_mut() = script);
+                    stream_comp_case(tr, &format!("fullseq-l{}-{}-s{}-{}", lvl, comp::FLUSHES[pre].0, shape, k), prop, &data, &cfg, &sch, &mut r, "repeat");
+                }
+            }
+        }
+    }
     // history > 32 KiB before a full flush
     for (bi, (kind, size)) in [("period900", 80_000usize), ("zeros", 70_000), ("runs", 50_000)].iter().enumerate() {
         let data = gen::data(kind, *size, &mut r);
